@@ -367,6 +367,7 @@ impl Parser {
                 }
                 _ => {
                     // only loops support labels for now
+                    self.push_error("a label must be followed by 'loop' or 'while'");
                     Ok(Statement::Invalid)
                 }
             };
